@@ -533,6 +533,29 @@ Theorem C04_reuse_without_buffer_check_refuted :
 Proof. exact reuse_without_buffer_check_refuted. Qed.
 Print Assumptions C04_reuse_without_buffer_check_refuted.
 
+(* Expect: 100-continue (persistConn.readResponse's continueCh, Model/H1Conn.v
+   read_final_expect; carried state = "is the channel to the body writer still armed"):
+   what the client makes of the server's bytes does not depend on whether the request expected
+   a 100; the capacity-one channel is signalled at most once per exchange however many 100
+   heads arrive (so the read loop never blocks on it), never when the request did not expect a
+   100; without the disarming `continueCh = nil` (seeded e-m2) two 100 heads and a final 200
+   give three sends - the read loop blocks and a complete response is never delivered. *)
+Theorem C04_expect_does_not_change_the_response : forall fuel meth n armed s,
+  fst (read_final_expect true fuel meth n armed s) = read_final fuel meth n s.
+Proof. exact expect_does_not_change_the_response. Qed.
+Print Assumptions C04_expect_does_not_change_the_response.
+
+Theorem C04_continue_signalled_at_most_once : forall fuel meth n armed s,
+  length (snd (read_final_expect true fuel meth n armed s)) <= (if armed then 1 else 0).
+Proof. exact continue_signalled_at_most_once. Qed.
+Print Assumptions C04_continue_signalled_at_most_once.
+
+Theorem C04_expect_without_disarm_refuted :
+  snd (read_final_expect false 7 (bs "POST") 0 true expect_demo) = [SigSendBody; SigSendBody; SigSendBody] /\
+  snd (read_final_expect true 7 (bs "POST") 0 true expect_demo) = [SigSendBody].
+Proof. exact expect_without_disarm_refuted. Qed.
+Print Assumptions C04_expect_without_disarm_refuted.
+
 (* x read buffer sizes: an accepted status line + header block + transfer decision does not
    depend on the read-buffer size *)
 Theorem C04_accepted_head_bufsize_independent : forall meth b1 b2 s r rest,
